@@ -401,6 +401,13 @@ def main():
                 continue
             if len(violations) >= 3:
                 continue
+            if not fi.get("code"):
+                # no dedicated replay program: re-run the property's correspondence and look for the same failing key
+                fi = dict(fi)
+                fi["code"] = ("import sys; sys.path.insert(0, %r); sys.path.insert(0, %r)\nimport importlib\nH = importlib.import_module('harness.%s')\n"
+                              "class X:\n    seed = %d; tier = %r; notes = []; stats = {}\n    def log(self, *a): pass\n"
+                              "out = H.correspondence(X())\nhit = [f for f in out.get('failing_inputs', []) if f['key'] == %r]\n"
+                              "assert not hit, hit[0]['what']\n" % (VERIF, os.path.join(VERIF, "tools"), prop.lower(), seed, ctx.tier, fi["key"]))
             path = write_replay(ctx, {"property": prop, "seed": seed, "tier": ctx.tier, "broken": broken[:20], **fi})
             violations.append(f"VIOLATION property={prop} replay={path}")
         for f in known:
